@@ -64,7 +64,8 @@ type dmaMon struct {
 	open   map[string]*dmaCopy
 	closed map[string]*dmaCopy
 	subs   map[string]*dmaSub
-	done   []*dmaCopy // answered copies, in answer order (consumed by the driver-level check)
+	late   map[string]bool // sub-requests of copies that were already answered
+	done   []*dmaCopy      // answered copies, in answer order (consumed by the driver-level check)
 }
 
 type taskEv struct {
@@ -110,7 +111,7 @@ func attachCopyMon(p *plat.Platform, viol violFn) *copyMon {
 			continue
 		}
 		g := gpuOfName(d.Name())
-		m.dmas[g] = &dmaMon{gpu: g, open: map[string]*dmaCopy{}, closed: map[string]*dmaCopy{}, subs: map[string]*dmaSub{}}
+		m.dmas[g] = &dmaMon{gpu: g, open: map[string]*dmaCopy{}, closed: map[string]*dmaCopy{}, subs: map[string]*dmaSub{}, late: map[string]bool{}}
 		m.log.Attach(d.ToCP, fmt.Sprintf("dmaCP/%d", g))
 		m.log.Attach(d.ToMem, fmt.Sprintf("dmaMem/%d", g))
 	}
@@ -251,7 +252,7 @@ func (m *copyMon) onPort(e simkit.Event) {
 		owner.subs = append(owner.subs, s)
 		d.subs[s.id] = s
 		m.count("dma_sub_requests", 1)
-	case side == "mem" && e.Kind == simkit.KRecv:
+	case side == "mem" && e.Kind == simkit.KRetrieve: // the engine took the memory response from its port
 		var to string
 		var data []byte
 		switch r := e.Msg.(type) {
@@ -263,6 +264,10 @@ func (m *copyMon) onPort(e simkit.Event) {
 			return
 		}
 		s := d.subs[to]
+		if s == nil && d.late[to] {
+			m.count("dma_late_responses_of_answered_copies", 1)
+			return
+		}
 		if s == nil {
 			m.viol("C11|dma|memory-response-to-unknown-sub-request", "a memory response arrived at the DMA engine for a request it never issued", wit(nil))
 			return
@@ -340,6 +345,9 @@ func (m *copyMon) onPort(e simkit.Event) {
 		d.done = append(d.done, c)
 		for _, s := range c.subs {
 			delete(d.subs, s.id)
+			if !s.done {
+				d.late[s.id] = true
+			}
 			s.data = nil
 		}
 		m.count("dma_copies_completed", 1)
@@ -402,6 +410,8 @@ func (m *copyMon) analyse(issued []*issuedCopy, scen string) {
 	defer m.mu.Unlock()
 	events := m.log.Snapshot()
 	cmds := map[string]*drvCmd{}
+	kernelStart := map[string]int{}
+	var kernels [][2]int // [start,end] of kernel commands in port-event indices
 	var order []*drvCmd
 	reqOf := map[sim.Msg]*drvReq{}
 	for _, te := range m.tasks[m.taskFrom:] {
@@ -409,6 +419,9 @@ func (m *copyMon) analyse(issued []*issuedCopy, scen string) {
 		if te.start {
 			switch t.Kind {
 			case "Driver Command":
+				if strings.Contains(t.What, "LaunchKernel") {
+					kernelStart[t.ID] = te.afterPortSeq
+				}
 				if !strings.Contains(t.What, "MemCopy") {
 					continue
 				}
@@ -448,6 +461,8 @@ func (m *copyMon) analyse(issued []*issuedCopy, scen string) {
 		} else if c := cmds[t.ID]; c != nil {
 			c.ends++
 			c.endSeq = te.afterPortSeq
+		} else if ks, ok := kernelStart[t.ID]; ok {
+			kernels = append(kernels, [2]int{ks, te.afterPortSeq})
 		}
 	}
 	m.taskFrom = len(m.tasks)
@@ -499,6 +514,18 @@ func (m *copyMon) analyse(issued []*issuedCopy, scen string) {
 			continue
 		}
 		m.count("driver_copy_commands_checked", 1)
+		first := c.endSeq
+		for _, r := range c.reqs {
+			if r.initSeq < first {
+				first = r.initSeq
+			}
+		}
+		for _, k := range kernels {
+			if k[0] < c.endSeq && first < k[1] {
+				m.count("copy_commands_overlapping_a_running_kernel", 1)
+				break
+			}
+		}
 		if debugTrace {
 			fmt.Printf("CMD %s end@%d %v\n", c.what, c.endSeq, describeReqs(c.reqs))
 		}
